@@ -118,6 +118,34 @@ type httptestRouter struct {
 // lines get their source, an event always has the sender's address as source.
 var parserIgnoreHost bool
 
+// stageFilters are the metric filters of the tag stage (drawn per case). FILTERING.md describes them as a clean-up of
+// metrics; every one here spares the only metric the cases send ("some.metric"), and an event - whose title would match
+// all of them - must come out with its tags and source, and must come out at all.
+var stageFilters []statsd.Filter
+
+func filtersGen() *rapid.Generator[[]statsd.Filter] {
+	sm := func(ps ...string) gostatsd.StringMatchList {
+		var l gostatsd.StringMatchList
+		for _, p := range ps {
+			l = append(l, gostatsd.NewStringMatch(p))
+		}
+		return l
+	}
+	all := []statsd.Filter{
+		{ExcludeMetrics: sm("some.metric"), DropMetric: true},
+		{ExcludeMetrics: sm("some.*"), DropHost: true},
+		{ExcludeMetrics: sm("some.metric"), DropTags: sm("regex:.*")},
+		{MatchMetrics: sm("!some.metric"), DropTags: sm("a*", "k*", "env*", "shared:tag", "static:*")},
+		{MatchMetrics: sm("a*", "b*", "hello*", "regex:^[^s]"), DropMetric: true},
+	}
+	return rapid.Custom(func(t *rapid.T) []statsd.Filter {
+		if rapid.Bool().Draw(t, "no-filters") {
+			return nil
+		}
+		return rapid.SliceOfNDistinct(rapid.SampledFrom(all), 1, 3, func(f statsd.Filter) string { return fmt.Sprintf("%v", f) }).Draw(t, "filters")
+	})
+}
+
 func build(t vt.TB, nBackends int, maxConc uint, parsers int, static []string, answers map[string]*sender, holdLookups chan struct{}) *pipeline {
 	p := &pipeline{in: make(chan []*statsd.Datagram), ci: fakes.NewCachedInstances()}
 	var bks []gostatsd.Backend
@@ -129,7 +157,7 @@ func build(t vt.TB, nBackends int, maxConc uint, parsers int, static []string, a
 	p.bh = statsd.NewBackendHandler(bks, maxConc, 1, 1, statsd.AggregatorFactoryFunc(func() statsd.Aggregator {
 		return &countingAgg{inner: statsd.NewMetricAggregator(nil, 0, 0, 0, 0, gostatsd.TimerSubtypes{}, 0), n: &p.mapsReceived}
 	}))
-	th := statsd.NewTagHandler(p.bh, gostatsd.Tags(append([]string(nil), static...)), nil)
+	th := statsd.NewTagHandler(p.bh, gostatsd.Tags(append([]string(nil), static...)), stageFilters)
 	ch := statsd.NewCloudHandler(p.ci, th)
 	p.top = ch
 	ctx, cancel := context.WithCancel(context.Background())
@@ -220,6 +248,7 @@ func TestEventsThroughPipeline(t *testing.T) {
 			answers[senders[i].ip] = senders[i]
 		}
 		parserIgnoreHost = rapid.Bool().Draw(t, "ignore-host")
+		stageFilters = filtersGen().Draw(t, "stage-filters")
 		p := build(t, nb, maxConc, parsers, static, answers, nil)
 		defer p.close()
 		srv, err := web.NewHttpServer(logrus.StandardLogger(), p.top, "verif", "127.0.0.1:0", false, false, true, false, nil, nil)
@@ -445,6 +474,7 @@ func TestWaitForEventsGated(t *testing.T) {
 		}
 		hold := make(chan struct{})
 		parserIgnoreHost = rapid.Bool().Draw(t, "ignore-host")
+		stageFilters = filtersGen().Draw(t, "stage-filters")
 		p := build(t, nb, maxConc, 1, nil, map[string]*sender{snd.ip: snd}, hold)
 		defer p.close()
 		if !pendingLookup {
@@ -548,7 +578,7 @@ func TestEventsForwarderMode(t *testing.T) {
 		ctx, cancel := context.WithCancel(context.Background())
 		fdone := make(chan struct{})
 		go func() { fwd.Run(ctx); close(fdone) }()
-		th := statsd.NewTagHandler(fwd, gostatsd.Tags(append([]string(nil), static...)), nil)
+		th := statsd.NewTagHandler(fwd, gostatsd.Tags(append([]string(nil), static...)), filtersGen().Draw(t, "stage-filters"))
 		in := make(chan []*statsd.Datagram)
 		dp := statsd.NewDatagramParser(in, "", rapid.Bool().Draw(t, "ignore-host"), 0, th, 0, false, logrus.StandardLogger())
 		pdone := make(chan struct{})
